@@ -52,6 +52,8 @@ class SimKernel(object):
         self.last_pipes = []    # pipes created since the last fork (they belong to the next child)
         self.faults = {}        # call name -> list of errno values consumed per call (0 = no fault)
         self.fork_owner = None  # callback -> owner index
+        self.flags = {}         # fd -> status flags set through fcntl(F_SETFL)
+        self.hangs = []         # calls that would have blocked for ever on a blocking descriptor
 
     def _fault(self, name):
         q = self.faults.get(name)
@@ -86,6 +88,7 @@ class SimKernel(object):
         ent = self.fds.pop(fd, None)
         if ent is None:
             raise OSError(errno.EBADF, 'sim bad fd')
+        self.flags.pop(fd, None)
         p, mode = ent
         if mode == 'r':
             p.r_refs -= 1
@@ -102,6 +105,9 @@ class SimKernel(object):
             data, p.buf = p.buf[:n], p.buf[n:]
             return data
         if p.w_refs > 0:
+            if not self.flags.get(fd, 0) & _real_os.O_NONBLOCK:
+                # a blocking descriptor: the real read() would not return while a writer stays open
+                self.hangs.append(('read', fd))
             raise OSError(errno.EAGAIN, 'sim would block')
         return b''
 
@@ -114,8 +120,12 @@ class SimKernel(object):
         if p.r_refs <= 0:
             raise OSError(errno.EPIPE, 'sim broken pipe')
         room = p.capacity - len(p.buf)
-        if room <= 0:
-            raise OSError(errno.EAGAIN, 'sim pipe full')
+        if room <= 0 or (room < len(data) and not self.flags.get(fd, 0) & _real_os.O_NONBLOCK):
+            if not self.flags.get(fd, 0) & _real_os.O_NONBLOCK:
+                # a blocking descriptor: the real write() would not return until the reader drains the pipe
+                self.hangs.append(('write', fd))
+            if room <= 0:
+                raise OSError(errno.EAGAIN, 'sim pipe full')
         p.buf += data[:room]
         return min(len(data), room)
 
@@ -265,7 +275,17 @@ class FakeFcntl(object):
     F_GETFL = 3
     F_SETFL = 4
 
+    def __init__(self, kernel=None):
+        self._k = kernel
+
     def fcntl(self, fd, op, arg=0):
+        if self._k is None:
+            return 0
+        if op == self.F_SETFL:
+            self._k.flags[fd] = arg
+            return 0
+        if op == self.F_GETFL:
+            return self._k.flags.get(fd, 0)
         return 0
 
 
@@ -329,7 +349,7 @@ def install(kernel):
         setattr(mod, name, val)
 
     patch(so, 'os', FakeOS(kernel))
-    patch(so, 'fcntl', FakeFcntl())
+    patch(so, 'fcntl', FakeFcntl(kernel))
     clock = Clock(kernel)
     for mod in (sp, sd, sr, sh):
         if hasattr(mod, 'time'):
